@@ -822,7 +822,7 @@ func (g *graph) compile(ctx context.Context, opt *graphCompileOptions) (*composa
 	}
 
 	if runType == runTypeDAG {
-		err := validateDAG(r.chanSubscribeTo, controlPredecessors)
+		err := validateDAG(r.chanSubscribeTo, controlPredecessors, dataPredecessors)
 		if err != nil {
 			return nil, err
 		}
@@ -1029,18 +1029,19 @@ func transferTask(script [][]string, invertedEdges map[string][]string) [][]stri
 	return script
 }
 
-func validateDAG(chanSubscribeTo map[string]*chanCall, controlPredecessors map[string][]string) error {
+func validateDAG(chanSubscribeTo map[string]*chanCall, controlPredecessors, dataPredecessors map[string][]string) error {
+	// a node waits for its control predecessors and for its data predecessors alike: a loop through either kind of
+	// edge (a data-only edge declared with WithNoDirectDependency included) never becomes ready. Every edge is
+	// counted once per table it is in, and taken off once per table below.
 	m := map[string]int{}
 	for node := range chanSubscribeTo {
-		if edges, ok := controlPredecessors[node]; ok {
-			m[node] = len(edges)
-			for _, pre := range edges {
-				if pre == START {
-					m[node] -= 1
+		m[node] = 0
+		for _, predecessors := range []map[string][]string{controlPredecessors, dataPredecessors} {
+			for _, pre := range predecessors[node] {
+				if pre != START {
+					m[node]++
 				}
 			}
-		} else {
-			m[node] = 0
 		}
 	}
 	hasChanged := true
@@ -1055,12 +1056,21 @@ func validateDAG(chanSubscribeTo map[string]*chanCall, controlPredecessors map[s
 					}
 					m[subNode]--
 				}
+				for _, subNode := range chanSubscribeTo[node].writeTo {
+					if subNode == END {
+						continue
+					}
+					m[subNode]--
+				}
 				for _, subBranch := range chanSubscribeTo[node].writeToBranches {
 					for subNode := range subBranch.endNodes {
 						if subNode == END {
 							continue
 						}
 						m[subNode]--
+						if !subBranch.noDataFlow {
+							m[subNode]--
+						}
 					}
 				}
 				m[node] = -1
